@@ -1005,7 +1005,8 @@ def real_cases(ctx):
 
     def add(kind, family, n, radix, level, timeout, **kw):
         c = dict(kind=kind, family=family, n=n, radix=radix, level=level, seed=rng.randrange(2 ** 31), timeout=timeout, **kw)
-        c['id'] = f"{kind}-{family}-r{radix}w{n}-L{level}-{c['seed']}" + (f"-k{kw['k']}" if 'k' in kw else '') + (f"-{kw['model']}" if 'model' in kw else '')
+        c['id'] = (f"{kind}-{family}-r{radix}w{n}-L{level}-{c['seed']}" + (f"-k{kw['k']}" if 'k' in kw else '')
+                   + (f"-{kw['model']}" if 'model' in kw else '') + (f"-eps{kw['eps']}" if 'eps' in kw else ''))
         cases.append(c)
         return c
 
@@ -1051,6 +1052,11 @@ def real_cases(ctx):
             for lvl in (1, 2, 3, 4):
                 add('unitary', 'haar', n, 2, lvl, t, model='czrzsx')
         add('unitary', 'haar', 2, 2, 1, t, model='wide')
+        # other budgets: the bound scales with synthesis_epsilon
+        add('unitary', 'haar', 2, 2, 1, t, eps=1e-4)
+        add('unitary', 'clifford', 2, 2, 2, t, eps=1e-12)
+        add('state', 'random', 2, 2, 1, t, eps=1e-5)
+        add('system', 'haar', 2, 2, 1, t, k=2, eps=1e-5)
         for fam in S_FAMILIES:
             for n in (1, 2, 3):
                 add('state', fam, n, 2, 1, t)
